@@ -175,6 +175,10 @@ def extend [BEq α] (s : HashSet α) (l : List α) : HashSet α := l.foldl set_i
 
 /-- `iter().filter(p)` -/
 def filter (l : List α) (p : α → Bool) : List α := l.filter p
+/-- `Vec::sort_by_key` with a Boolean key: a STABLE sort, `false` before `true` -/
+def sort_by_key_bool (l : List α) (k : α → Bool) : List α := l.filter (fun a => !k a) ++ l.filter k
+/-- `Iterator::partition`: (the elements satisfying the predicate, the others), each in the original order -/
+def partition (l : List α) (p : α → Bool) : List α × List α := (l.filter p, l.filter (fun a => !p a))
 /-- `iter().count()` -/
 def count (l : List α) : Nat := l.length
 def any (l : List α) (p : α → Bool) : Bool := l.any p
